@@ -14,6 +14,21 @@ Definition xor_sem (args : list val) : option (val * list val) :=
   | _ => None
   end.
 
+(* contracts of the two slice helpers of cfb-mode: over the common prefix (zip),
+   xor_set1: a := a^b, b := a^b;   xor_set2: a := a^b, b := old a *)
+Definition m_of (a b : list N) : nat := Nat.min (length a) (length b).
+Definition set1_sem (args : list val) : option (val * list val) :=
+  match args with
+  | [VBlk a; VBlk b] => Some (VUnit, [VBlk (xor_into a b); VBlk (xor_into b a)])
+  | _ => None
+  end.
+Definition set2_sem (args : list val) : option (val * list val) :=
+  match args with
+  | [VBlk a; VBlk b] => Some (VUnit, [VBlk (xor_into a b); VBlk (firstn (m_of a b) a ++ skipn (m_of a b) b)])
+  | _ => None
+  end.
+
+
 (* context of a block-mode backend body: the cipher C, the crate's helper contracts *)
 Definition bctx (C : cipher) (fns : list (string * fnimpl)) (consts : list (string * val)) : ctx :=
   mkctx (c_E C) (c_D C) consts fns true.
@@ -72,6 +87,8 @@ Proof. revert i; induction l as [|y l IH]; intros [|i] H; simpl in *; auto; try 
 
 Lemma in_range_true i n : i < n -> in_range i n = true.
 Proof. intros; apply Nat.ltb_lt; auto. Qed.
+Lemma in_range_false i n : n <= i -> in_range i n = false.
+Proof. intros; apply Nat.ltb_ge; auto. Qed.
 Lemma fits_true lo len n : lo + len <= n -> fits lo len n = true.
 Proof. intros; apply Nat.leb_le; auto. Qed.
 Lemma len_eq_true a b : a = b -> len_eq a b = true.
@@ -108,6 +125,17 @@ Proof.
   change (xorb [nth i a 0%N] [nth i b 0%N]) with [N.lxor (nth i a 0%N) (nth i b 0%N)].
   rewrite <- app_assoc. reflexivity.
 Qed.
+
+Lemma xor_upto_nth_at i a b : i < Nat.min (length a) (length b) -> nth i (xor_upto i a b) 0%N = nth i a 0%N.
+Proof.
+  intros H. unfold xor_upto.
+  assert (Hl : length (xorb (firstn i a) (firstn i b)) = i) by (rewrite xorb_length, !firstn_length; lia).
+  rewrite app_nth2 by lia. rewrite Hl, Nat.sub_diag. rewrite (skipn_nth_cons i 0%N a) by lia. reflexivity.
+Qed.
+
+Lemma xor_upto_step' i a b : i < Nat.min (length a) (length b) ->
+  upd_nth i (N.lxor (nth i a 0%N) (nth i b 0%N)) (xor_upto i a b) = xor_upto (S i) a b.
+Proof. intros H. rewrite <- (xor_upto_nth_at i a b H). apply xor_upto_step; auto. Qed.
 
 Lemma xor_upto_end a b : xor_upto (Nat.min (length a) (length b)) a b = xor_into a b.
 Proof.
@@ -174,19 +202,19 @@ Proof. induction l as [|x l IH]; intros H; [congruence|]. destruct l as [|y l]; 
    (blocks, lengths, indices) stay folded; [deref_deep] stays folded too (it is only reached once
    the body has been evaluated, and unfolding it on a symbolic value is exponential) *)
 Ltac ev :=
-  cbv -[deref_deep for_each loopN xor_upto upto in_range fits len_eq le_ok Nat.add Nat.sub Nat.mul Nat.min length seq xorb xor_into nth upd_nth
+  cbv -[deref_deep for_each loopN xor_upto upto in_range fits len_eq le_ok Nat.add Nat.sub Nat.mul Nat.min ndiv Nat.modulo length seq xorb xor_into nth upd_nth
         firstn skipn app splice N.lxor map map2 repeat zeros rd_in rd_out wr_out xor_in2out c_E c_D c_bs c_w last
         le_encode be_encode le_decode be_decode wrap pow2 to_usize N.add N.sub N.mul N.modulo N.leb N.ltb N.eqb concat rev].
 
 (* the same, also through [deref_deep] (once no loop is pending) *)
 Ltac evf :=
-  cbv -[for_each loopN xor_upto upto in_range fits len_eq le_ok Nat.add Nat.sub Nat.mul Nat.min length seq xorb xor_into nth upd_nth
+  cbv -[for_each loopN xor_upto upto in_range fits len_eq le_ok Nat.add Nat.sub Nat.mul Nat.min ndiv Nat.modulo length seq xorb xor_into nth upd_nth
         firstn skipn app splice N.lxor map map2 repeat zeros rd_in rd_out wr_out xor_in2out c_E c_D c_bs c_w last
         le_encode be_encode le_decode be_decode wrap pow2 to_usize N.add N.sub N.mul N.modulo N.leb N.ltb N.eqb concat rev].
 
 Ltac solve_len :=
   try unfold splice; unfold block in *;
-  repeat rewrite ?be_encode_length, ?le_encode_length;
+  repeat rewrite ?be_encode_length, ?le_encode_length, ?xor_into_length;
   repeat rewrite ?app_length, ?xorb_length, ?firstn_length, ?skipn_length, ?upd_nth_length, ?map_length,
                  ?map2_length, ?repeat_length;
   cbn [length];
@@ -195,28 +223,44 @@ Ltac solve_len :=
   repeat rewrite ?app_length, ?xorb_length, ?firstn_length, ?skipn_length, ?be_encode_length, ?le_encode_length;
   lia.
 
+(* facts about checks stated up front by a proof (cheap: exact matches, no arithmetic) *)
+Ltac fact1 :=
+  match goal with
+  | H : in_range ?a ?b = _ |- context [in_range ?a ?b] => rewrite H
+  | H : le_ok ?a ?b = _ |- context [le_ok ?a ?b] => rewrite H
+  | H : len_eq ?a ?b = _ |- context [len_eq ?a ?b] => rewrite H
+  | H : fits ?a ?b ?c = _ |- context [fits ?a ?b ?c] => rewrite H
+  end.
+Ltac fact1_in H0 :=
+  match goal with
+  | H : in_range ?a ?b = _ |- _ => match type of H0 with context [in_range a b] => rewrite H in H0 end
+  | H : le_ok ?a ?b = _ |- _ => match type of H0 with context [le_ok a b] => rewrite H in H0 end
+  | H : len_eq ?a ?b = _ |- _ => match type of H0 with context [len_eq a b] => rewrite H in H0 end
+  | H : fits ?a ?b ?c = _ |- _ => match type of H0 with context [fits a b c] => rewrite H in H0 end
+  end.
+
 (* discharge one visible bound check (a closed instance; instances under binders are skipped) *)
 Ltac check1 :=
   match goal with
-  | |- context [in_range ?a ?b] => rewrite (in_range_true a b) by solve_len
+  | |- context [in_range ?a ?b] => first [rewrite (in_range_true a b) by solve_len | rewrite (in_range_false a b) by solve_len]
   | |- context [fits ?a ?b ?c] => rewrite (fits_true a b c) by solve_len
   | |- context [len_eq ?a ?b] => first [rewrite (len_eq_true a b) by solve_len | rewrite (len_eq_false a b) by solve_len]
   | |- context [le_ok ?a ?b] => rewrite (le_ok_true a b) by solve_len
   end.
 Ltac check1_in H :=
   match type of H with
-  | context [in_range ?a ?b] => rewrite (in_range_true a b) in H by solve_len
+  | context [in_range ?a ?b] => first [rewrite (in_range_true a b) in H by solve_len | rewrite (in_range_false a b) in H by solve_len]
   | context [fits ?a ?b ?c] => rewrite (fits_true a b c) in H by solve_len
   | context [len_eq ?a ?b] => first [rewrite (len_eq_true a b) in H by solve_len | rewrite (len_eq_false a b) in H by solve_len]
   | context [le_ok ?a ?b] => rewrite (le_ok_true a b) in H by solve_len
   end.
 
 (* evaluate, discharging the bound checks that become visible *)
-Ltac ev_checks := ev; repeat (progress (repeat check1); ev).
+Ltac ev_checks := ev; repeat (progress (first [progress (repeat fact1) | repeat check1]); ev).
 Ltac evf_checks := evf; repeat (progress (repeat check1); evf).
 
 Ltac ev_in H :=
-  cbv -[deref_deep for_each loopN xor_upto upto in_range fits len_eq le_ok Nat.add Nat.sub Nat.mul Nat.min length seq xorb xor_into nth upd_nth
+  cbv -[deref_deep for_each loopN xor_upto upto in_range fits len_eq le_ok Nat.add Nat.sub Nat.mul Nat.min ndiv Nat.modulo length seq xorb xor_into nth upd_nth
         firstn skipn app splice N.lxor map map2 repeat zeros rd_in rd_out wr_out xor_in2out c_E c_D c_bs c_w last
         le_encode be_encode le_decode be_decode wrap pow2 to_usize N.add N.sub N.mul N.modulo N.leb N.ltb N.eqb concat rev] in H.
 
@@ -224,7 +268,7 @@ Ltac ev_in H :=
 Ltac eval_sub t :=
   let r := fresh "r" in let H := fresh "Hr" in
   remember t as r eqn:H; ev_in H;
-  repeat (progress (repeat check1_in H); ev_in H);
+  repeat (progress (first [progress (repeat (fact1_in H)) | repeat check1_in H]); ev_in H);
   rewrite H; clear r H; cbv beta iota.
 
 (* the callee frame of [call_src] *)
@@ -257,3 +301,27 @@ Ltac evf_l :=
     let r := fresh "rhs" in let H := fresh "Hrhs" in
     remember R as r eqn:H; evf; rewrite H; clear H r
   end.
+
+(* ---- segmented buffers: reads and writes of a[lo..lo+len] when a = pre ++ cur ++ post ------------- *)
+Lemma seg_read {A} (pre cur post : list A) lo len : lo = length pre -> len = length cur ->
+  firstn len (skipn lo (pre ++ cur ++ post)) = cur.
+Proof. intros -> ->. rewrite skipn_app_exact by reflexivity. apply firstn_app_exact. reflexivity. Qed.
+
+Lemma seg_write (pre cur post s : list N) lo len : lo = length pre -> len = length cur ->
+  splice lo len s (pre ++ cur ++ post) = pre ++ s ++ post.
+Proof. intros -> ->. unfold splice. rewrite firstn_app_exact by reflexivity.
+  rewrite (app_assoc pre cur post), skipn_app_exact by (now rewrite app_length). reflexivity. Qed.
+
+Lemma seg_read_tail {A} (pre post : list A) lo len : lo = length pre -> len = length post ->
+  firstn len (skipn lo (pre ++ post)) = post.
+Proof. intros -> ->. rewrite skipn_app_exact by reflexivity. apply firstn_all. Qed.
+
+Lemma seg_write_tail (pre post s : list N) lo len : lo = length pre -> len = length post ->
+  splice lo len s (pre ++ post) = pre ++ s.
+Proof. intros -> ->. unfold splice. rewrite firstn_app_exact by reflexivity.
+  rewrite <- app_length, skipn_all. now rewrite app_nil_r. Qed.
+
+Lemma seg_write_head (cur post s : list N) len : len = length cur -> splice 0 len s (cur ++ post) = s ++ post.
+Proof. intros ->. unfold splice. cbn [firstn app Nat.add]. now rewrite skipn_app_exact by reflexivity. Qed.
+Lemma seg_read_head {A} (cur post : list A) len : len = length cur -> firstn len (skipn 0 (cur ++ post)) = cur.
+Proof. intros ->. cbn [skipn]. now apply firstn_app_exact. Qed.
